@@ -22,6 +22,26 @@ theorem chainPull_frame (rec : PG → Stream → Pull) (hrec : ∀ g s, (rec g s
     have := hrec g base
     cases h : rec g base <;> simp_all [Pull.Frame]
 
+theorem nextNonS_frame (rec : PG → Stream → Pull) (hrec : ∀ g s, (rec g s).Frame g) :
+    ∀ (fuel : Nat) (g : PG) (pre : List Tok) (base : Stream), (nextNonS rec fuel g pre base).Frame g := by
+  intro fuel
+  induction fuel with
+  | zero => intro g pre base; simp [nextNonS, Pull.Frame]
+  | succ fuel ih =>
+    intro g pre base
+    unfold nextNonS
+    have h1 := chainPull_frame rec hrec g pre base
+    cases hc : chainPull rec g pre base with
+    | unsupported => simp [Pull.Frame]
+    | stop inner g1 => rw [hc] at h1; exact h1
+    | tok n inner g1 =>
+      rw [hc] at h1
+      simp only [Pull.Frame] at h1
+      simp only
+      split
+      · exact Pull.Frame.trans h1 (ih g1 _ _)
+      · simp [Pull.Frame, h1]
+
 theorem sorPull_frame (rec : PG → Stream → Pull) (hrec : ∀ g s, (rec g s).Frame g)
     (g : PG) (act : Bool) (pre : List Tok) (base : Stream) : (sorPull rec g act pre base).Frame g := by
   unfold sorPull
@@ -36,8 +56,10 @@ theorem sorPull_frame (rec : PG → Stream → Pull) (hrec : ∀ g s, (rec g s).
     split
     · simp [Pull.Frame, h1]
     · split
-      · have h2 := chainPull_frame rec hrec g1 (unlayer inner).1 (unlayer inner).2
-        cases hc2 : chainPull rec g1 (unlayer inner).1 (unlayer inner).2 with
+      · have h2 := nextNonS_frame rec hrec ((unlayer inner).1.length + (unlayer inner).2.size + g1.pushed.length + 2) g1
+          (unlayer inner).1 (unlayer inner).2
+        cases hc2 : nextNonS rec ((unlayer inner).1.length + (unlayer inner).2.size + g1.pushed.length + 2) g1
+            (unlayer inner).1 (unlayer inner).2 with
         | unsupported => simp [Pull.Frame]
         | stop i2 g2 => rw [hc2] at h2; simp_all [Pull.Frame]
         | tok n i2 g2 =>
